@@ -186,15 +186,16 @@ Proof.
   exfalso. apply (Hnone eq_refl o R). right. left. exact Hh.
 Qed.
 
-Theorem C04_deleted_not_returned_proof_alt :
+(* destroySelf purges the entry in every caching mode: no doCache hypothesis *)
+Theorem C04_deleted_not_returned_anycache_proof :
   forall cfg ops k id id' tok s',
-    forallb guard04 ops = true -> doCache cfg = true ->
+    forallb guard04 ops = true ->
     forallb no_unpickle ops = true ->           (* ADDED: no OUnpickle in the history *)
     let s := run cfg ops in
     step cfg s (OGet k id) = (Ret (RObj id' tok), s') ->
     assoc id (t_rows (tbl s' k)) <> None.
 Proof.
-  intros cfg ops k id id' tok s' Hg Hdc Hnu s Hstep.
+  intros cfg ops k id id' tok s' Hg Hnu s Hstep.
   pose proof (reachable_Inv cfg MNU ops (gop_MNU ops Hg Hnu)) as H. fold s in H.
   pose proof (Inv_st0 cfg MNU s H) as H0.
   unfold step in Hstep. cbn [run_op] in Hstep. fold (st0 s) in Hstep. unfold hold_or_none in Hstep.
@@ -202,7 +203,31 @@ Proof.
   destruct (so_get cfg k id None [] (st0 s)) as [[ob|e] s1]; [|discriminate].
   destruct G as (G1 & G2 & G3 & G4 & G5 & G6 & G7).
   unfold hold, bind, gets, modify, ret in Hstep. cbn [fst snd] in Hstep. inversion Hstep; subst id' tok s'. clear Hstep.
-  destruct (inv_X _ _ _ _ G1 eq_refl Hdc k id ob (registered_cached _ _ _ _ G4)) as (_ & Hrow). exact Hrow.
+  destruct (inv_X _ _ _ _ G1 k id ob (registered_cached _ _ _ _ G4)) as (_ & Hrow). exact (Hrow eq_refl).
+Qed.
+
+(* the earlier, weaker form (kept for its users) *)
+Theorem C04_deleted_not_returned_proof_alt :
+  forall cfg ops k id id' tok s',
+    forallb guard04 ops = true -> doCache cfg = true ->
+    forallb no_unpickle ops = true ->
+    let s := run cfg ops in
+    step cfg s (OGet k id) = (Ret (RObj id' tok), s') ->
+    assoc id (t_rows (tbl s' k)) <> None.
+Proof.
+  intros cfg ops k id id' tok s' Hg _ Hnu. exact (C04_deleted_not_returned_anycache_proof cfg ops k id id' tok s' Hg Hnu).
+Qed.
+
+(* no history of C04 ever leaves a destroyed instance in the identity map (any caching mode, unpickling allowed) *)
+Theorem C04_cached_is_current :
+  forall cfg ops k id o,
+    forallb guard04 ops = true ->
+    let s := run cfg ops in
+    (In (id, o) (c_strong (cch s k)) \/ In (id, o) (c_weak (cch s k))) -> i_obsolete (get_inst s o) = false.
+Proof.
+  intros cfg ops k id o Hg s Hc.
+  pose proof (reachable_Inv cfg M04 ops (gop_M04 ops Hg)) as H. fold s in H.
+  exact (proj1 (inv_X _ _ _ _ H k id o Hc)).
 Qed.
 
 (* the same two, for histories without unpickling: a held current instance always has its row *)
@@ -252,3 +277,5 @@ Print Assumptions C04_unpickle_no_duplicate_proof_alt.
 Print Assumptions C04_deleted_not_returned_proof_alt.
 Print Assumptions C04_get_returns_held_proof_alt2.
 Print Assumptions C04_unpickle_no_duplicate_proof_alt2.
+Print Assumptions C04_deleted_not_returned_anycache_proof.
+Print Assumptions C04_cached_is_current.
